@@ -109,7 +109,7 @@ Qed.
 Definition deleted (n : node) : node :=
   match n with
   | NDir _ m => NDir [] m
-  | NFile d k i m => let k' := (k - 1)%Z in NFile (if Z.eqb k' 0 then [] else d) k' i m
+  | NFile d k i m => NFile d (k - 1)%Z i m
   | NSym _ m => NSym [] m
   end.
 
